@@ -467,7 +467,8 @@ def decide(prop, tier, seed, args):
     sel = select_obligations(prop, results)
     baseline = load_baseline()
     known = [k for k in load_known() if k["property"] == prop]
-    failed = [(r, o) for (r, o) in sel if o["status"] == "failed"]
+    # failures inside a unit that is undecided as a whole (resource limit, lost anchor, ..) are not refutations
+    failed = [(r, o) for (r, o) in sel if o["status"] == "failed" and r["status"] == "ok"]
     violations, knowns, unstable = [], [], []
     for (r, o) in failed:
         k = next((k for k in known if k["obligation"] == o["id"]), None)
